@@ -162,4 +162,11 @@ def DivArith.f32 : DivArith where
   cdiv a b := (Float32.ofNat a / Float32.ofNat b).ceil.toUSize.toNat
   fdiv a b := (Float32.ofNat a / Float32.ofNat b).floor.toUSize.toNat
 
+/-- the same two divisions written with the control-plane interface — the form the translator emits for the Rust
+`(a as f32 / b as f32).ceil() as usize` (tie G7); `DivArith.ofNum Float` is the executable twin the driver runs and
+`DivArith.ofNum ℚ = DivArith.exact` is a theorem (RubatoProofs/Lemmas/FormulaTie.lean) -/
+def DivArith.ofNum (ρ : Type) [RNum ρ] : DivArith where
+  cdiv a b := RNum.toNat (RNum.ceil (RNum.div32 (RNum.ofNat32 (ρ := ρ) a) (RNum.ofNat32 b)))
+  fdiv a b := RNum.toNat (RNum.floor (RNum.div32 (RNum.ofNat32 (ρ := ρ) a) (RNum.ofNat32 b)))
+
 end Rubato
